@@ -118,6 +118,8 @@ func (o Op) String() string {
 		return fmt.Sprintf("ReadFrom(%s,chunk=%d)", o.Rel, o.Chunk)
 	case "Reset":
 		return "Reset(new destination, other side)"
+	case "ResetOp-if-failed":
+		return "ResetOp (if the destination has failed)"
 	case "ReadFromErr":
 		if o.Chunk < 0 {
 			return fmt.Sprintf("ReadFrom(%s bytes together with source error)", o.Rel)
@@ -248,6 +250,14 @@ func (s *Session) Apply(o Op) *explore.Fail {
 	var n int64
 	var err error
 	switch o.Kind {
+	case "ResetOp-if-failed":
+		// the quick reset (same destination, same options), used by a caller that starts the
+		// next message on a connection whose last write failed: the failure has to stay visible
+		if s.Dst.Failed {
+			w.ResetOp(s.Cfg.OpCode)
+		}
+		s.Obs = append(s.Obs, CallObs{Op: o.String(), Err: "n/a", Size: w.Size()})
+		return nil
 	case "Reset":
 		// the writer moves on to a connection of the other side: whatever it still held is
 		// dropped, and from here on it has to behave like a writer made for that side
